@@ -205,6 +205,7 @@ func init() {
 		gen.CheckKinds(c.Run, c.Prog)
 		kindsTable(c)
 		gen.CheckDestKinds(c.Run, c.Prog)
+		buildSettings(c)
 		// a type text follows a later re-aliasing of its package only through the registry's own *Package
 		gen.CheckVarNameOwners(c.Run, c.Prog)
 		// the qualifier of the self-check line is final only after the last registration: G-MOCK/qualifier-final,
